@@ -22,8 +22,12 @@ func vhPathStr(tag string, n int) string {
 //verif:param ngm quick=0,1 thorough=0..2
 //verif:param hasroot 0..1
 //verif:param preloc 0,4
+//verif:param nest 0..1
 //verif:replay-iters 50
-func VH_C18_UpdateLocations(np, ngp, ngm, hasroot, preloc int) {
+func VH_C18_UpdateLocations(np, ngp, ngm, hasroot, preloc, nest int) {
+	if nest == 1 {
+		np += 4 // room for nested roots such as "a" and "a/src/b", "ab" and "ab/c"
+	}
 	c := Call{}
 	c.RemoteSrcPath = vPathOrEmpty("remote", np)
 	c.Location = Location(preloc) // Stdlib when Call.init saw _test/_testmain.go
@@ -35,14 +39,14 @@ func VH_C18_UpdateLocations(np, ngp, ngm, hasroot, preloc int) {
 	gopaths := map[string]string{}
 	var gpk []string
 	for i := 0; i < ngp; i++ {
-		k := vhPathStr("gp"+string(rune('0'+i)), 1+i)
+		k := vhPathStr("gp"+string(rune('0'+i)), 1+i+5*i*nest)
 		gopaths[k] = "L" + string(rune('0'+i))
 		gpk = append(gpk, k)
 	}
 	gomods := map[string]string{}
 	var gmk []string
 	for i := 0; i < ngm; i++ {
-		k := vhPathStr("gm"+string(rune('0'+i)), 2+i)
+		k := vhPathStr("gm"+string(rune('0'+i)), 2+i+i*nest)
 		gomods[k] = "mod" + string(rune('0'+i))
 		gmk = append(gmk, k)
 	}
@@ -97,6 +101,45 @@ func VH_C18_UpdateLocations(np, ngp, ngm, hasroot, preloc int) {
 		}
 	}
 	vAssert(okRoot, "the part before the relative path is a detected root plus its separator")
+	// the most specific root of a kind wins: no longer root of the same kind explains the frame
+	for _, k := range gpk {
+		for _, sep := range []string{"/src/", "/pkg/mod/"} {
+			if (wantLoc == GOPATH || wantLoc == GoPkg) && len(k+sep) > len(root) {
+				vAssert(vNot(vhHasPfx(c.RemoteSrcPath, k+sep)), "a nested GOPATH root is preferred to the one containing it")
+			}
+		}
+	}
+	for _, k := range gmk {
+		if wantLoc == GoMod && len(k)+1 > len(root) {
+			vAssert(vNot(vhHasPfx(c.RemoteSrcPath, k+"/")), "a nested module root is preferred to the one containing it")
+		}
+	}
+	// import path: the directory of the relative path (module-qualified for go.mod roots);
+	// a file lying directly in its root keeps / gets the package's own path
+	slash := -1
+	for i := 0; i < len(c.RelSrcPath); i++ {
+		slash = vIte(c.RelSrcPath[i] == '/', i, slash)
+	}
+	slash = vConcretize(slash)
+	switch wantLoc {
+	case Stdlib, GOPATH, GoPkg:
+		if slash >= 0 {
+			vAssert(c.ImportPath == c.RelSrcPath[:slash], "import path is the directory of the relative path")
+		} else {
+			vAssert(c.ImportPath == before.ImportPath, "a file directly in its root keeps its import path")
+		}
+	case GoMod:
+		for i, k := range gmk {
+			if root == k+"/" {
+				pkg := "mod" + string(rune('0'+i))
+				if slash >= 0 {
+					vAssert(c.ImportPath == pkg+"/"+c.RelSrcPath[:slash], "module-qualified import path")
+				} else {
+					vAssert(c.ImportPath == pkg, "a file in the module root belongs to the module's own package")
+				}
+			}
+		}
+	}
 	if preloc != 0 {
 		vAssert(c.Location == Location(preloc), "a class set earlier (go-test main) is kept")
 	}
